@@ -613,6 +613,8 @@ Script(S, c) ==
       [] c.call = "addres"   -> AddRes(S, c.res, c.arg)
       [] c.call = "adjust"   -> Adjust(S, c.dev, c.arg)
       [] c.call = "noise"    -> AddValue(S, c.dev, c.arg)
+      [] c.call = "partnoise" -> LET p == S.dev[c.dev].out IN      \* the part waiting in a source's output changes its value
+                                 IF p = 0 \/ S.part[p].batch THEN S ELSE [S EXCEPT !.part[p].value = @ + c.arg]
       [] c.call = "workorder" -> CreateOrder(S, c.dev, c.res)
       [] c.call = "rewire"   -> Rewire(S, c.dev, c.ups)
       [] OTHER -> S
